@@ -5,17 +5,26 @@ use super::escape::escape_xml;
 
 fn get_dxf_font_xml(font: &DxfFont) -> String {
     let mut parts: Vec<String> = Vec::new();
-    if font.b == Some(true) {
-        parts.push("<b/>".to_string());
+    // an explicit "off" overrides the cell's own font and has to survive the file
+    match font.b {
+        Some(true) => parts.push("<b/>".to_string()),
+        Some(false) => parts.push("<b val=\"0\"/>".to_string()),
+        None => {}
     }
-    if font.i == Some(true) {
-        parts.push("<i/>".to_string());
+    match font.i {
+        Some(true) => parts.push("<i/>".to_string()),
+        Some(false) => parts.push("<i val=\"0\"/>".to_string()),
+        None => {}
     }
-    if font.u == Some(true) {
-        parts.push("<u/>".to_string());
+    match font.u {
+        Some(true) => parts.push("<u/>".to_string()),
+        Some(false) => parts.push("<u val=\"none\"/>".to_string()),
+        None => {}
     }
-    if font.strike == Some(true) {
-        parts.push("<strike/>".to_string());
+    match font.strike {
+        Some(true) => parts.push("<strike/>".to_string()),
+        Some(false) => parts.push("<strike val=\"0\"/>".to_string()),
+        None => {}
     }
     if let Some(sz) = font.sz {
         parts.push(format!("<sz val=\"{sz}\"/>"));
